@@ -38,6 +38,7 @@ def required_cells(tier):
     req["kind:PH"] = 200 if q else 5000
     req["pose:via-move"] = 150 if q else 4000
     req["pose:original-after-sibling-moved"] = 50 if q else 1000
+    req["pose:endpoints-assigned"] = 20 if q else 400
     req["pose:constructor-arguments-moved-afterwards"] = 50 if q else 1000
     req["perm:exhaustive-polygon"] = 100
     req["orient:exhaustive-polyhedron"] = 100
@@ -56,7 +57,10 @@ def cases(rng, budget, widx, nworkers, tier):
             d = gen.rand_flat(rng, "S")
             if nt == "int" and not _integral(d):
                 nt = "float"
-            yield _with_move({"k": "S", "d": d, "nt": nt}, rng)
+            c_ = _with_move({"k": "S", "d": d, "nt": nt}, rng)
+            if "mv" not in c_ and rng.random() < 0.2:
+                c_["assign"] = True
+            yield c_
         elif r < 0.45:
             d = gen.rand_obj(rng, "PG")
             if nt == "int" and not _integral(d):
@@ -186,6 +190,14 @@ def judge(case):
         if case.get("mv"):
             mu.cell("pose:via-move")
             s = _moved(G, mk, case["mv"], nt)
+        elif case.get("assign"):
+            # the segment is built with other end points, measured, and then given its end points by item assignment
+            mu.cell("pose:endpoints-assigned")
+            s = G.Segment(G.Point(*[num(c, nt) for c in K.add(d[1], (F(1), F(-2), F(3)))]),
+                          G.Point(*[num(c, nt) for c in K.add(d[2], (F(-4), F(1), F(2)))]))      # other place, other length
+            s.length()
+            s[0] = G.Point(*[num(c, nt) for c in d[1]])
+            s[1] = G.Point(*[num(c, nt) for c in d[2]])
         else:
             s = mk()
         res, exc, imp = M.call(lambda o: o.length(), s)
